@@ -587,7 +587,7 @@ class Ref:
 
         def gen():
             if 'v' in a:
-                yield from itertools.accumulate(src, f, initial=a['v'])
+                yield from itertools.accumulate(itertools.chain([a['v']], src), f)
             else:
                 first = True
                 for x in itertools.accumulate(src, f):
@@ -796,9 +796,11 @@ class Ref:
         return any(x == a['v'] for x in o.values())
 
     def plusRight(self, o, a):
+        self._recv = o
         return self._plus(o, a['v'])
 
     def plusLeft(self, o, a):
+        self._recv = o
         return self._plus(a['v'], o)
 
     def _plus(self, x, y):
@@ -813,6 +815,9 @@ class Ref:
         if isinstance(x, dict) and isinstance(y, dict):
             return FD(itertools.chain(x.items(), y.items()))
         if is_iterable(x) and is_iterable(y):
+            for z in (x, y):        # a set literal is a set built during evaluation
+                if isinstance(z, frozenset) and not isinstance(z, DSet) and z is not self._recv and len(z) > 1:
+                    raise OOD()
             return itertools.chain(it(x), it(y))
         raise NoMatchingFunctionException('+')
 
@@ -945,6 +950,8 @@ class Ref:
     remove = difference
 
     def setCmp(self, o, a):
+        if isinstance(o, View) and o.kind == 'items':
+            raise OOD()      # membership tests in an items view unpack the candidate
         if isinstance(o, View) and o.kind != 'values':
             s = frozenset(o.elems())
         elif isinstance(o, frozenset):
